@@ -162,6 +162,10 @@ sig_source_stop_sink(const struct video_source_s* source)
     // This is a pretty hacky way of signaling a video stream to stop
     // the sink thread.
     struct video_s* self = containerof(source, struct video_s, source);
+    // The filter (told to stop just before) may still be emitting frames into
+    // the sink's queue. Wait for it to finish, otherwise the sink can do its
+    // final flush and stop the storage device before those frames arrive.
+    thread_join(&self->filter.thread);
     self->sink.is_stopping = 1;
 }
 
